@@ -51,25 +51,26 @@ int __real_select(int, fd_set *, fd_set *, fd_set *, struct timeval *);
 #define MAXFD 4096
 enum { ORG_NONE, ORG_SOCKET, ORG_ACCEPT, ORG_DUP };
 static const char *ORGNAME[] = { "?", "socket()", "accept()", "dup()" };
-static struct fdrec { int open; int origin; long op_open; long op_close; } led[MAXFD];
+static struct fdrec { int open; int origin; long op_open; long op_close; int closed_by_library; } led[MAXFD];
 static long n_opened, n_closed;
 static long cur_op;                       /* index of the operation being executed (journal index) */
 static char cur_op_text[200];
 static long calls_in_op;                  /* wrapped calls made during the current operation */
 static long io_calls_in_op;               /* read/write calls on library descriptors during the current operation */
 static int foreign_close_fd = -1;
+static int stale_close_fd = -1;           /* close() of a number the library itself closed earlier and that nobody has reopened */
 
 static int tracked(int fd) { return fd >= 0 && fd < MAXFD && led[fd].open; }
 static void ledger_open(int fd, int origin)
 {
     if (fd < 0 || fd >= MAXFD) return;
-    led[fd].open = 1; led[fd].origin = origin; led[fd].op_open = cur_op; led[fd].op_close = -1;
+    led[fd].open = 1; led[fd].origin = origin; led[fd].op_open = cur_op; led[fd].op_close = -1; led[fd].closed_by_library = 0;
     n_opened++;
 }
 static void ledger_close(int fd)
 {
     if (!tracked(fd)) return;
-    led[fd].open = 0; led[fd].op_close = cur_op;
+    led[fd].open = 0; led[fd].op_close = cur_op; led[fd].closed_by_library = 1;
     n_closed++;
 }
 static int ledger_open_count(void) { int n = 0; for (int i = 0; i < MAXFD; i++) n += led[i].open; return n; }
@@ -263,6 +264,7 @@ int __wrap_close(int fd)
             TRACE("close(%d): descriptor does not belong to the library [flagged, not closed]", fd);
             errno = EBADF; return -1;
         }
+        if (fd >= 0 && fd < MAXFD && led[fd].closed_by_library && !led[fd].open) stale_close_fd = fd;
         TRACE("close(%d) = -1 EBADF", fd);
         return __real_close(fd);
     }
@@ -406,7 +408,7 @@ static void begin_op(const char *fmt, ...)
     vh_op("%s", cur_op_text);
     cur_op = n_ops++;
     calls_in_op = 0; io_calls_in_op = 0;
-    foreign_close_fd = -1;
+    foreign_close_fd = -1; stale_close_fd = -1;
     wcapn = rcapn = 0;
 }
 
@@ -417,6 +419,8 @@ static void check_ledger(void)
 {
     if (foreign_close_fd >= 0)
         vh_fail("fd:foreign-close", "%s: the library tried to close descriptor %d, which it does not own (open, not obtained through socket/accept/dup)", cur_op_text, foreign_close_fd);
+    if (stale_close_fd >= 0)
+        vh_fail("fd:closed-twice", "%s: the library called close() on descriptor %d, which it had already closed (the number was free: had anyone reopened it, this would have closed somebody else's descriptor)", cur_op_text, stale_close_fd);
     int held = 0;
     static int owner[MAXFD];
     for (int i = 0; i < MAXOBJ; i++) {
